@@ -36,6 +36,8 @@ class Harness:
   mode = 'preempt'
   max_steps = 20000
   keep_events = False
+  tick = None
+  max_clock = 3.0e4
 
   def setup(self):
     raise NotImplementedError
@@ -55,7 +57,8 @@ class Harness:
     snap = self.snapshot
     return sched.execute(body, prefix, mode=self.mode, max_steps=self.max_steps,
                          keep_events=keep_events or self.keep_events,
-                         snapshot=snap)
+                         snapshot=snap, tick=self.tick,
+                         max_clock=self.max_clock)
 
 
 class Explorer:
